@@ -614,4 +614,5 @@ func main() {
 	genSync(repo, out)
 	genAccess(repo, out)
 	genLocks(repo, out)
+	genGate(repo, out)
 }
